@@ -16,12 +16,13 @@ ROLE_LIBS = {"cw_controllers::Admin::execute_update_admin", "cw_controllers::Hoo
 _MEMO = {}
 
 
-def _import_call(ix, c, depth):
-    """alternatives contributed by a successful return of workspace call value c"""
+def _import_call(ix, c, depth, want_ret=None):
+    """alternatives contributed by a successful return of workspace call value c (with want_ret: by the paths on
+    which a bool-returning helper returns that bool; a non-literal return value is added as a fact)"""
     fn = ix.call_target(c)
     if fn is None or depth <= 0:
         return [frozenset()]
-    key = (id(ix), c, depth)
+    key = (id(ix), c, depth, want_ret)
     r = _MEMO.get(key)
     if r is not None:
         return r
@@ -32,8 +33,21 @@ def _import_call(ix, c, depth):
     except P.TooManyPaths:
         ps = []
     for p in ps:
+        extra = set()
+        if want_ret is not None:
+            rv = ix.inline(sym.subst(p.ret, m))
+            if tag(rv) == "agg" and payload(rv)[1] == "Ok" and kids(rv):
+                rv = kids(rv)[0]
+            if tag(rv) == "bool":
+                if bool(payload(rv)[0]) != want_ret:
+                    continue
+            else:
+                neg = False
+                while tag(rv) == "op" and payload(rv)[0] == "not":
+                    rv, neg = kids(rv)[0], not neg
+                extra.add((rv, (not want_ret) if neg else want_ret))
         for a in facts_dnf(ix, p, depth - 1):
-            alts.append(frozenset((sym.subst(atom, m), outcome) for (atom, outcome) in a))
+            alts.append(frozenset((sym.subst(atom, m), outcome) for (atom, outcome) in a) | frozenset(extra))
     alts = list(dict.fromkeys(alts))
     if not alts:
         alts = [frozenset()]
@@ -60,6 +74,16 @@ def facts_dnf(ix, p, depth=4):
         base.add((atom, outcome))
         if tag(atom) == "op" and payload(atom)[0] == "is_ok" and outcome is True:
             want(kids(atom)[0])
+        # a bool-returning helper the path branched on: the paths on which it returns that bool contribute
+        a0, o0 = atom, outcome
+        while tag(a0) == "op" and payload(a0)[0] == "not" and o0 in (True, False):
+            a0, o0 = kids(a0)[0], (not o0)
+        if tag(a0) == "unwrap":
+            a0 = kids(a0)[0]
+        if tag(a0) == "call" and o0 in (True, False) and ix.call_target(a0) is not None and "bool" in ix.call_target(a0).locals[0]["ty"] \
+                and (a0, o0) not in seen_calls:
+            seen_calls.add((a0, o0))
+            imports.append((a0, o0))
     for e in p.events:
         if e.name in P.UNWRAPS and e.args:
             want(e.args[0])
@@ -71,7 +95,7 @@ def facts_dnf(ix, p, depth=4):
         want(r)
     alts = [frozenset(base)]
     for c in imports:
-        sub = _import_call(ix, c, depth)
+        sub = _import_call(ix, c[0], depth, c[1]) if isinstance(c, tuple) else _import_call(ix, c, depth)
         new = []
         for a in alts:
             for b in sub:
@@ -201,6 +225,9 @@ def _own_facts(ix, p, m):
 
 
 def _imports(ix, p):
+    """workspace calls whose success the path relies on: entries are call values, or (call value, bool) for a
+    bool-returning helper the path branched on (`if can_do(..) {..}`): then only the callee paths returning that
+    bool contribute"""
     cs = []
     seen = set()
 
@@ -211,6 +238,17 @@ def _imports(ix, p):
     for (atom, outcome, _bb, _ln) in p.conds:
         if tag(atom) == "op" and payload(atom)[0] == "is_ok" and outcome is True:
             want(kids(atom)[0])
+        a0 = atom
+        o0 = outcome
+        while tag(a0) == "op" and payload(a0)[0] == "not" and o0 in (True, False):
+            a0, o0 = kids(a0)[0], (not o0)
+        if tag(a0) == "unwrap":
+            a0 = kids(a0)[0]
+        if tag(a0) == "call" and o0 in (True, False) and ix.call_target(a0) is not None and (a0, o0) not in seen:
+            t = ix.call_target(a0)
+            if "bool" in t.locals[0]["ty"]:
+                seen.add((a0, o0))
+                cs.append((a0, o0))
     for e in p.events:
         if e.name in P.UNWRAPS and e.args:
             want(e.args[0])
@@ -219,9 +257,17 @@ def _imports(ix, p):
     return cs
 
 
+def _sub_import(c2, m):
+    return (sym.subst(c2[0], m), c2[1]) if isinstance(c2, tuple) else sym.subst(c2, m)
+
+
 def callee_all_satisfy(ix, c, pred, depth=4):
     """every success path of workspace call value c (given in the caller's terms) satisfies pred, either by
-    its own branch facts or through one of the callees it relies on"""
+    its own branch facts or through one of the callees it relies on.  c may be (call, bool): only the paths on
+    which the helper returns that bool count (a non-literal return value becomes a fact itself)"""
+    want_ret = None
+    if isinstance(c, tuple):
+        c, want_ret = c
     fn = ix.call_target(c)
     if fn is None or depth <= 0:
         return False
@@ -232,12 +278,27 @@ def callee_all_satisfy(ix, c, pred, depth=4):
         return False
     if not ps:
         return False
+    considered = 0
     for p in ps:
-        if pred(_own_facts(ix, p, m)):
+        facts = _own_facts(ix, p, m)
+        if want_ret is not None:
+            r = ix.inline(sym.subst(sym.unwrap(p.ret) if tag(p.ret) in ("agg",) and payload(p.ret)[1] == "Ok" else p.ret, m))
+            if tag(r) == "agg" and payload(r)[1] == "Ok" and kids(r):
+                r = kids(r)[0]
+            if tag(r) == "bool":
+                if bool(payload(r)[0]) != want_ret:
+                    continue
+            else:
+                neg = False
+                while tag(r) == "op" and payload(r)[0] == "not":
+                    r, neg = kids(r)[0], not neg
+                facts = set(facts) | {(r, (not want_ret) if neg else want_ret)}
+        considered += 1
+        if pred(facts):
             continue
-        if not any(callee_all_satisfy(ix, sym.subst(c2, m), pred, depth - 1) for c2 in _imports(ix, p)):
+        if not any(callee_all_satisfy(ix, _sub_import(c2, m), pred, depth - 1) for c2 in _imports(ix, p)):
             return False
-    return True
+    return considered > 0
 
 
 def path_satisfies(ix, q, pred, m=None, depth=4):
@@ -247,6 +308,6 @@ def path_satisfies(ix, q, pred, m=None, depth=4):
     if pred(_own_facts(ix, q, m)):
         return True
     for c in _imports(ix, q):
-        if callee_all_satisfy(ix, sym.subst(c, m), pred, depth):
+        if callee_all_satisfy(ix, _sub_import(c, m), pred, depth):
             return True
     return False
